@@ -78,7 +78,10 @@ def run(chk):
             if "/msl" in key:
                 return True
             return Proxy.floor(self, key, count, floor, what, where)
-    c15.rule_flow(OnlyHlsl(chk, px.mapping))
+    only = OnlyHlsl(chk, px.mapping + [("C15.unique", "C04.names-unique"), ("C15.verbatim", "C04.names-verbatim"), ("C15.seeded", "C04.names-seeded"),
+                                       ("C15.anchor", "C04.anchor/c15")])
+    c15.rule_flow(only)
+    c15.rule_namemap(only)
 
 
 def formatter_aborts(f):
